@@ -124,6 +124,22 @@ pub fn documents<I: Inputs>(vt: &'static Vt<I>, ctx: &Ctx) -> Vec<Doc> {
                 }
             }
         }
+        // raw JSON / RON spellings of strings: every escape form, raw strings
+        if I::KIND == Kind::Str {
+            let text = v.as_str_();
+            let all_u: String = text.encode_utf16().map(|u| format!("\\u{u:04x}")).collect();
+            let all_u_upper: String = text.encode_utf16().map(|u| format!("\\u{u:04X}")).collect();
+            for t in [format!("\"{all_u}\""), format!("\"{all_u_upper}\""), format!(" \"{all_u}\" "), format!("\"\\/{all_u}\\b\""), format!("\"{all_u}\\ud800\"")] {
+                docs.push(Doc { fmt: Fmt::Json, pos: Pos::Top, bytes: t.clone().into_bytes() });
+                docs.push(Doc { fmt: Fmt::Json, pos: Pos::Vec, bytes: format!("[{t}]").into_bytes() });
+            }
+            if !text.contains('"') && !text.contains('#') {
+                let ron_u: String = text.chars().map(|c| format!("\\u{{{:x}}}", c as u32)).collect();
+                for t in [format!("r#\"{text}\"#"), format!("r\"{text}\""), format!("\"{ron_u}\""), format!("{name}(r#\"{text}\"#)"), format!("{name}(\"{ron_u}\")")] {
+                    docs.push(Doc { fmt: Fmt::Ron, pos: Pos::Top, bytes: t.into_bytes() });
+                }
+            }
+        }
         // raw JSON / RON spellings of numbers
         if matches!(I::KIND, Kind::Int | Kind::Float) {
             if let Some(dec) = v.display_() {
